@@ -2,7 +2,8 @@
 """dbg.py <PROP> <case index> <coq expr over `c`>: evaluate an expression on one case of the last run."""
 import sys, re, subprocess, os
 prop, idx, expr = sys.argv[1], int(sys.argv[2]), sys.argv[3]
-d = '/verif/_work/%s' % prop
+ROOT = os.path.dirname(os.path.abspath(__file__))
+d = ROOT + '/_work/%s' % prop
 for f in sorted(os.listdir(d)):
     if not (f.startswith('cases_') and f.endswith('.v')): continue
     src = open(os.path.join(d, f)).read()
@@ -14,7 +15,7 @@ for f in sorted(os.listdir(d)):
     case = src[start:end].rstrip().rstrip(';')
     header = src[:src.find('Definition cases')]
     body = header + 'Definition c := snd ' + case + '.\nEval vm_compute in (' + expr + ').\n'
-    open('/verif/_work/dbg.v', 'w').write(body)
-    out = subprocess.run('coqc -noglob -Q /verif/coq/theories IweV /verif/_work/dbg.v', shell=True, capture_output=True, text=True)
+    open(ROOT + '/_work/dbg.v', 'w').write(body)
+    out = subprocess.run('coqc -noglob -Q %s/coq/theories IweV %s/_work/dbg.v' % (ROOT, ROOT), shell=True, capture_output=True, text=True)
     print(out.stdout[-6000:], out.stderr[-2000:])
     break
